@@ -2814,14 +2814,18 @@ func (data *Data) DropSubscription(database, rp, name string) error {
 		if !ok {
 			return ErrDatabaseNotExists
 		}
-		for _, rpi := range db.RetentionPolicies {
-			for i := range rpi.Subscriptions {
+		found := false
+		db.WalkRetentionPolicyOrderly(func(rpi *RetentionPolicyInfo) {
+			for i := 0; !found && i < len(rpi.Subscriptions); i++ {
 				if rpi.Subscriptions[i].Name == name {
 					rpi.Subscriptions = append(rpi.Subscriptions[:i], rpi.Subscriptions[i+1:]...)
-					data.MaxSubscriptionID++
-					return nil
+					found = true
 				}
 			}
+		})
+		if found {
+			data.MaxSubscriptionID++
+			return nil
 		}
 	}
 
